@@ -174,14 +174,53 @@ func evalAll(c *ev.Ctx, cs sc.Case, docs []*gen.JV, family string) {
 	}
 }
 
-func run(c *ev.Ctx) {
-	typesFamily(c)
-	allOfFamily(c)
-	addPropsFamily(c)
-	shortcutFamily(c)
+type visitor func(cs sc.Case, docs []*gen.JV, family string)
+
+// enumCtx abstracts what the family enumerators need from the run-time.
+type enumCtx struct {
+	c        *ev.Ctx // may be nil when used as a generator by other checks
+	thorough bool
+	visit    visitor
 }
 
-func typesFamily(c *ev.Ctx) {
+func (e *enumCtx) Mine() bool {
+	if e.c == nil {
+		return true
+	}
+	return e.c.Mine()
+}
+func (e *enumCtx) Expired() bool { return e.c != nil && e.c.Expired() }
+func (e *enumCtx) Thorough() bool { return e.thorough }
+func (e *enumCtx) Bound(k string, v any) {
+	if e.c != nil {
+		e.c.Bound(k, v)
+	}
+}
+func (e *enumCtx) Sample(k string, v any) {
+	if e.c != nil {
+		e.c.Sample(k, v)
+	}
+}
+
+func run(c *ev.Ctx) {
+	e := &enumCtx{c: c, thorough: c.Thorough(), visit: func(cs sc.Case, docs []*gen.JV, family string) { evalAll(c, cs, docs, family) }}
+	typesFamily(e, true)
+	allOfFamily(e)
+	addPropsFamily(e)
+	shortcutFamily(e)
+}
+
+// ForEachSchema enumerates the schema cases of all families (documents
+// dropped); used by C13/C15/C16 as a source of accepted schemas.
+func ForEachSchema(thorough bool, f func(sc.Case)) {
+	e := &enumCtx{thorough: thorough, visit: func(cs sc.Case, _ []*gen.JV, _ string) { f(cs) }}
+	typesFamily(e, false)
+	allOfFamily(e)
+	addPropsFamily(e)
+	shortcutFamily(e)
+}
+
+func typesFamily(c *enumCtx, differential bool) {
 	var docs []*gen.JV
 	gen.EnumDocs(3, scalars, []string{"k", "l", "p"}, func(d *gen.JV) { docs = append(docs, d) })
 	elems := []*gen.JV{gen.JInt("1"), gen.JInt("-1"), gen.JStr(`"s"`), gen.JStr(`"ab"`), gen.JBool("true"), gen.JNull(),
@@ -232,13 +271,13 @@ func typesFamily(c *ev.Ctx) {
 							if pos.arr {
 								ds = arrDocs
 							}
-							evalAll(c, cs, ds, "types")
+							c.visit(cs, ds, "types")
 							if a.name == "obj" && b.name == "str2" {
 								c.Sample("types-"+pos.name, cs.Describe())
 							}
 							// differential: @A|@B == @A or @B
-							if rc.name == "@A|@B" && !nullable && pos.name == "root" {
-								unionDifferential(c, cs, ds)
+							if differential && rc.name == "@A|@B" && !nullable && pos.name == "root" {
+								unionDifferential(c.c, cs, ds)
 							}
 						}
 					}
@@ -269,7 +308,7 @@ func unionDifferential(c *ev.Ctx, cs sc.Case, docs []*gen.JV) {
 	}
 }
 
-func allOfFamily(c *ev.Ctx) {
+func allOfFamily(c *enumCtx) {
 	types := []sc.TypeDecl{
 		{Name: "@P1", Body: gen.Obj(gen.P("a", gen.Int("1")))},
 		{Name: "@P2", Body: gen.Obj(gen.P("b", gen.Str(`"s"`).With(gen.R("optional", "true"))))},
@@ -328,7 +367,7 @@ func allOfFamily(c *ev.Ctx) {
 						// use the object as a user type referenced from the root
 						cs = sc.Case{Root: gen.Ref("@W"), Types: append(append([]sc.TypeDecl{}, types...), sc.TypeDecl{Name: "@W", Body: r}), Opt: opt}
 					}
-					evalAll(c, cs, ds, "allof")
+					c.visit(cs, ds, "allof")
 					c.Sample("allof", cs.Describe())
 				}
 			}
@@ -336,7 +375,7 @@ func allOfFamily(c *ev.Ctx) {
 	}
 }
 
-func addPropsFamily(c *ev.Ctx) {
+func addPropsFamily(c *enumCtx) {
 	settings := []string{"", "false", "true", `"any"`, `"string"`, `"integer"`, `"float"`, `"boolean"`, `"null"`, `"object"`, `"array"`, `"@T"`, `"@O"`}
 	types := []sc.TypeDecl{{Name: "@T", Body: gen.Int("1").With(gen.R("min", "0"))}, {Name: "@O", Body: gen.Obj(gen.P("k", gen.Int("1")))}}
 	extra := []*gen.JV{gen.JInt("1"), gen.JInt("-1"), gen.JFloat("1.5"), gen.JStr(`"s"`), gen.JBool("false"), gen.JNull(), gen.JObj(), gen.JArr(), gen.JObj(gen.Member{Key: "k", Val: gen.JInt("1")}), gen.JArr(gen.JInt("1")), gen.JObj(gen.Member{Key: "q", Val: gen.JInt("1")})}
@@ -371,20 +410,20 @@ func addPropsFamily(c *ev.Ctx) {
 					root.Rules = append(root.Rules, gen.R("additionalProperties", st))
 				}
 				cs := sc.Case{Root: root, Types: types, Opt: opt}
-				evalAll(c, cs, docs, "addprops")
+				c.visit(cs, docs, "addprops")
 				nested := sc.Case{Root: gen.Obj(gen.P("a", gen.Int("1")), gen.P("n", root.Clone())), Types: types, Opt: opt}
 				var nd []*gen.JV
 				for _, d := range docs {
 					nd = append(nd, gen.JObj(gen.Member{Key: "a", Val: gen.JInt("1")}, gen.Member{Key: "n", Val: d}))
 				}
-				evalAll(c, nested, nd, "addprops")
+				c.visit(nested, nd, "addprops")
 				c.Sample("addprops", cs.Describe())
 			}
 		}
 	}
 }
 
-func shortcutFamily(c *ev.Ctx) {
+func shortcutFamily(c *enumCtx) {
 	keyTypes := []*gen.Node{
 		gen.Str(`"ab"`).With(gen.R("minLength", "2")),
 		gen.Str(`"a"`).With(gen.R("regex", `"^a"`)),
@@ -442,7 +481,7 @@ func shortcutFamily(c *ev.Ctx) {
 						root.Rules = append(root.Rules, gen.R("additionalProperties", ap))
 					}
 					cs := sc.Case{Root: root, Types: []sc.TypeDecl{{Name: "@K", Body: kt}}, Opt: optMode == 2}
-					evalAll(c, cs, docs, "shortcut")
+					c.visit(cs, docs, "shortcut")
 					c.Sample("shortcut", cs.Describe())
 				}
 			}
